@@ -21,6 +21,7 @@ def arenaStep (limit : Nat) (a : AState) (ws : List String) : Option AState × S
       | .ok (id, a') => (some a', s!"id {id}")
       | .panic => (none, "panic")
       | .diverge => (none, "diverge")
+      | .ub => (none, "ub")
   | ["dealloc", id] | ["deallocd", id] =>
     match id.toNat? with
     | none => (some a, "bad-op")
@@ -29,6 +30,7 @@ def arenaStep (limit : Nat) (a : AState) (ws : List String) : Option AState × S
       | .ok (o, a') => (some a', fmtOpt toString o)
       | .panic => (none, "panic")
       | .diverge => (none, "diverge")
+      | .ub => (none, "ub")
   | ["deallocn", id] =>
     match id.toNat? with
     | none => (some a, "bad-op")
